@@ -962,6 +962,15 @@ def _sp_kernel(rec, rng, fam):
     if rng.random() < 0.5:  # include control points on the boundary of the domain
         ctrl[0] = lo
         ctrl[-1] = hi
+    if nctrl >= 5 and rng.random() < 0.5:
+        # exactly repeated control points with independent weights (unreduced control sets, both spin channels of closed-shell
+        # data, the same sample from two systems): the mapped function is still sum_a k(x, x_a) alpha_a - added after a
+        # seeded "merge coincident points" step in the spline mappers that kept only one weight per repeated row
+        ndup = max(1, nctrl // 4)
+        src = rng.choice(nctrl, size=ndup, replace=False)
+        dst = np.array([t for t in rng.permutation(nctrl) if t not in set(src.tolist())][:ndup], dtype=int)
+        ctrl[dst] = ctrl[src[: len(dst)]]
+        rec.tag("repeated_control_points", True)
     alpha = rng.normal(size=nctrl)
     rec.tag("kernel", info["label"])
     rec.tag("term_dim", maxdim)
